@@ -249,7 +249,24 @@ func isSomeVersion(h []op, id int, got string) bool {
 	return false
 }
 
+// generaliseFile: 000012.sst -> *.sst (violation keys must not depend on file numbers)
+func generaliseFile(f string) string {
+	if i := strings.LastIndex(f, "."); i > 0 {
+		return "*" + f[i:]
+	}
+	return f
+}
+
 func generalise(s string) string {
+	if strings.Contains(s, "Create a new file") {
+		switch {
+		case strings.Contains(s, "memtable"):
+			return "a zero-length memtable file left by the kill is reported as an error (Create a new file)"
+		case strings.Contains(s, "vlog"):
+			return "a zero-length value-log file left by the kill is reported as an error (Create a new file)"
+		}
+		return "a zero-length file left by the kill is reported as an error (Create a new file)"
+	}
 	for _, m := range []string{"in use by another process", "Cannot acquire directory lock", "MANIFEST", "checksum", "truncate"} {
 		if strings.Contains(s, m) {
 			return m
@@ -264,12 +281,70 @@ func generalise(s string) string {
 // runChild runs the child (optionally under strace with a kill at the n-th syscall of the set) and
 // returns the number of ACKs seen and whether it died by signal.
 func runChild(self, dir string, from, to int, mode string, bulk string, straceN int) (acks int, killed bool, phases []string, raw string) {
+	return runChildAt(self, dir, from, to, mode, bulk, straceN, nil)
+}
+
+// target: kill at the k-th call (per thread) of ONE syscall on ONE file of the store directory (strace -P).
+type target struct {
+	File    string `json:"file"`
+	Syscall string `json:"syscall"`
+	K       int    `json:"occurrence"`
+}
+
+const pathSyscalls = "openat,ftruncate,write,pwrite64,fsync,fdatasync,rename,renameat,unlink,unlinkat,mmap,munmap,close,msync,fallocate"
+
+// dryRun lists the (file, syscall) pairs the child touches inside dir, with call counts.
+func dryRun(self, dir string, from, to int, mode, kind, tracefile string) map[[2]string]int {
+	args := []string{"-f", "-y", "-q", "-o", tracefile, "-e", "trace=" + pathSyscalls, self, "child", dir, fmt.Sprint(from), fmt.Sprint(to), mode}
+	if kind != "" {
+		args = append(args, kind)
+	}
+	exec.Command("strace", args...).Run()
+	b, _ := os.ReadFile(tracefile)
+	os.Remove(tracefile)
+	out := map[[2]string]int{}
+	for _, line := range strings.Split(string(b), "\n") {
+		f := strings.Fields(line)
+		if len(f) < 2 {
+			continue
+		}
+		call := f[1]
+		i := strings.Index(call, "(")
+		if i <= 0 {
+			continue
+		}
+		sysc := call[:i]
+		rest := line
+		seen := map[string]bool{}
+		for {
+			j := strings.Index(rest, dir+"/")
+			if j < 0 {
+				break
+			}
+			rest = rest[j+len(dir)+1:]
+			k := 0
+			for k < len(rest) && (rest[k] == '.' || rest[k] == '_' || rest[k] >= '0' && rest[k] <= '9' || rest[k] >= 'A' && rest[k] <= 'Z' || rest[k] >= 'a' && rest[k] <= 'z') {
+				k++
+			}
+			if name := rest[:k]; name != "" && !seen[name] {
+				seen[name] = true
+				out[[2]string{name, sysc}]++
+			}
+		}
+	}
+	return out
+}
+
+func runChildAt(self, dir string, from, to int, mode string, bulk string, straceN int, tg *target) (acks int, killed bool, phases []string, raw string) {
 	args := []string{"child", dir, fmt.Sprint(from), fmt.Sprint(to), mode}
 	if bulk != "" {
 		args = append(args, bulk)
 	}
 	var cmd *exec.Cmd
-	if straceN > 0 {
+	if tg != nil {
+		sa := []string{"-f", "-q", "-o", "/dev/null", "-e", "trace=" + tg.Syscall, "-P", filepath.Join(dir, tg.File), "-e", fmt.Sprintf("inject=%s:signal=SIGKILL:when=%d", tg.Syscall, tg.K), self}
+		cmd = exec.Command("strace", append(sa, args...)...)
+	} else if straceN > 0 {
 		set := "write,pwrite64,writev,pwritev,fsync,fdatasync,msync,ftruncate,fallocate,rename,renameat,renameat2,unlink,unlinkat,openat,mmap,munmap,close,mremap,madvise"
 		sa := []string{"-f", "-q", "-o", "/dev/null", "-e", "trace=" + set, "-e", fmt.Sprintf("inject=%s:signal=SIGKILL:when=%d", set, straceN), self}
 		cmd = exec.Command("strace", append(sa, args...)...)
@@ -338,7 +413,10 @@ func tornFamily(self, base string, h []op, step int, jobs *[]func()) *int64 {
 	cmd.Process.Kill()
 	cmd.Wait()
 	if len(imgs) != len(h)+1 {
-		ev.Broken("torn family: only %d images", len(imgs))
+		// the child could not open the store or a store failed: that is the code under test misbehaving (the
+		// boundary-kill family runs the same child and reports it), not a harness fault; no images to cut
+		r.Violation("child did not run as scripted (store or open failed before the kill)", fmt.Sprintf("torn-image child produced %d of %d directory images", len(imgs), len(h)+1), scenario{Name: "torn images", Steps: []string{"open, stores with a pause after every acknowledgement"}})
+		return &count
 	}
 	for k := 1; k <= len(h); k++ {
 		k := k
@@ -573,6 +651,69 @@ func main() {
 			check(self, dir, "edge", acks, []int{acks}, sc)
 		})
 	}
+	// ---- family 5: path-targeted kills. A dry run under strace lists every (file of the store directory,
+	// syscall) pair a phase performs; for every pair and every occurrence k (per thread, up to the observed count,
+	// at most 4 / thorough 12) the child is killed ON ENTRY to that call (strace -P <file> -e inject=<syscall>:
+	// signal=SIGKILL:when=k): file created but not sized, sized but not mapped, emptied but not unlinked, renamed
+	// or not, manifest written but not synced, ... Unlike the syscall-index sweep these instants are named,
+	// so the same window is hit on every run.
+	type phase struct {
+		name    string
+		prepare func(dir string) int
+		to      int
+		mode    string
+		kind    string
+	}
+	phasesT := []phase{
+		{"first open + all stores + clean close", func(string) int { return 0 }, len(h), "close", ""},
+		{"reopen of a directory killed after 5 stores, stores 5..8 + close", func(dir string) int { runChild(self, dir, 0, 5, "selfkill", "", 0); return 5 }, len(h), "close", ""},
+		{"reopen of a cleanly closed directory, stores 4..8 + close", func(dir string) int { runChild(self, dir, 0, 4, "close", "", 0); return 4 }, len(h), "close", ""},
+		{"first open + value-log-boundary stores + clean close", func(string) int { return 0 }, len(he), "close", "edge"},
+	}
+	maxK := r.Pick(4, 12)
+	var targetsListed, targetKills int64
+	for _, ph := range phasesT {
+		ph := ph
+		dry := newDir()
+		from := ph.prepare(dry)
+		pairs := dryRun(self, dry, from, ph.to, ph.mode, ph.kind, dry+".trace")
+		os.RemoveAll(dry)
+		if len(pairs) < 10 {
+			ev.Broken("path-targeted kills: the dry run of %q lists only %d (file, syscall) pairs", ph.name, len(pairs))
+		}
+		hh := history(ph.kind)
+		for pr, cnt := range pairs {
+			for k := 1; k <= cnt && k <= maxK; k++ {
+				tg := target{pr[0], pr[1], k}
+				atomic.AddInt64(&targetsListed, 1)
+				jobs = append(jobs, func() {
+					dir := newDir()
+					defer os.RemoveAll(dir)
+					from := ph.prepare(dir)
+					acks, killed, phs, _ := runChildAt(self, dir, from, ph.to, ph.mode, ph.kind, 0, &tg)
+					if !killed {
+						return // this thread never made a k-th such call
+					}
+					atomic.AddInt64(&kills, 1)
+					atomic.AddInt64(&targetKills, 1)
+					at := "before open"
+					if len(phs) > 0 {
+						at = phs[len(phs)-1]
+					}
+					sc := scenario{Name: "SIGKILL on entry to " + tg.Syscall + " on " + generaliseFile(tg.File), Steps: []string{ph.name, fmt.Sprintf("SIGKILL on entry to call #%d (per thread) of %s on %s, phase %s, %d stores acknowledged", tg.K, tg.Syscall, tg.File, at, acks)}, Acked: acks}
+					check(self, dir, ph.kind, acks, []int{acks}, sc)
+					a2, _, _, raw2 := runChild(self, dir, acks, len(hh), "close", ph.kind, 0)
+					sc.Steps = append(sc.Steps, "reopen, remaining stores, clean close")
+					sc.Acked = a2
+					if a2 != len(hh) || !strings.Contains(raw2, "CLOSED") {
+						r.Violation("store does not reopen / accept writes after a kill (chained cycle)", raw2, sc)
+						return
+					}
+					check(self, dir, ph.kind, a2, nil, sc)
+				})
+			}
+		}
+	}
 	// ---- thorough: bulk phase (memtable flush, value log, compaction) with kills
 	if r.Thorough() {
 		hb := history("bulk")
@@ -603,6 +744,8 @@ func main() {
 	r.Set("reopens_verified", int(opens))
 	r.Set("distinct_last_ack", len(lastAck))
 	r.Set("strace_kills_per_sweep", sweepKilled)
+	r.Set("path_targeted_kill_points_listed", int(targetsListed))
+	r.Set("path_targeted_kills_performed", int(targetKills))
 	r.Set("evaluations", int(kills))
 	r.Set("distinct_nontrivial", int(kills))
 	r.Sample(scenario{Name: "kill at store boundary", Steps: []string{"stores 0..5 then SIGKILL", "reopen, stores 5..7 then SIGKILL", "reopen, stores 7..8 then SIGKILL"}, Acked: 8})
